@@ -161,6 +161,27 @@ RangeLo(lo, hi, m, n, o) ==
   LET h == CellSide(lo, hi, m) IN
   IF n >= m THEN QSub(lo, QMul(QI(o), h)) ELSE QAdd(lo, QMul(QI(o), h))
 RangeHi(lo, hi, m, n, o) == QAdd(RangeLo(lo, hi, m, n, o), QMul(QI(n), CellSide(lo, hi, m)))
+\* The same with nodes on the boundary (documentation of uniform_partition / DESIGN E2).  A uniform partition of
+\* [lo, hi] with m nodes and flags L, R (1: the first / last node lies ON the boundary, 0: half a cell inside) has
+\* m - (L + R)/2 cells.  ResizingOperator(domain, ran_shp, offset, discr_kwargs={'nodes_on_bdry': (rL, rR)}):
+\* the range keeps the cell side and its nodes are the domain nodes continued with the same spacing (so that the
+\* copied block sits at the same physical grid points); rL, rR only decide where the range ENDS relative to its
+\* first / last node.  All-zero flags give RangeLo / RangeHi above.
+CellsB2(m, L, R) == 2 * m - L - R                                   \* twice the number of cells
+CellSideB(lo, hi, m, L, R) == QDiv(QMul(QI(2), QSub(hi, lo)), QI(CellsB2(m, L, R)))
+HalfIf0(flag, h) == IF flag = 1 THEN QZero ELSE QHalf(h)
+Node0B(lo, hi, m, L, R) == QAdd(lo, HalfIf0(L, CellSideB(lo, hi, m, L, R)))
+RangeNode0B(lo, hi, m, n, o, dL, dR) ==
+  LET h == CellSideB(lo, hi, m, dL, dR)
+      g == Node0B(lo, hi, m, dL, dR)
+  IN  IF n >= m THEN QSub(g, QMul(QI(o), h)) ELSE QAdd(g, QMul(QI(o), h))
+RangeLoB(lo, hi, m, n, o, dL, dR, rL) ==
+  QSub(RangeNode0B(lo, hi, m, n, o, dL, dR), HalfIf0(rL, CellSideB(lo, hi, m, dL, dR)))
+RangeHiB(lo, hi, m, n, o, dL, dR, rR) ==
+  LET h == CellSideB(lo, hi, m, dL, dR)
+  IN  QAdd(QAdd(RangeNode0B(lo, hi, m, n, o, dL, dR), QMul(QI(n - 1), h)), HalfIf0(rR, h))
+\* flags are meaningful only on axes with at least two nodes
+FlagsOK(m, n, dL, dR, rL, rR) == (dL + dR > 0 => m >= 2) /\ (rL + rR > 0 => n >= 2)
 \* default offset: the difference is distributed evenly, the left side is preferred when growing by an odd
 \* number; when shrinking by an odd number the documentation does not say which side loses more
 DefaultOffsetOK(m, n, o) ==
